@@ -6,7 +6,7 @@ deletion-vector merge of `finish_delete_update` then makes the rebased lists des
 the rows at the affected addresses are the same visible rows in both versions.
 -/
 namespace LanceModel.C18
-open LanceModel.Table LanceModel.C17 List
+open LanceModel.Table LanceModel.C17Base List
 
 theorem footOK_kind {T : Txn} {aff : Bool} {init : List Nat} {o : Foot} (h : footOK T aff init o = true) :
     o.kind ≠ .overwrite ∧ o.kind ≠ .restore := by
